@@ -43,6 +43,14 @@ def gen(t):
     a('w_closestVertex', '%s& o, const %s& a, const %s& b, const %s& c, const %s& p' % (V, V, V, V, V), 'o = closestVertex(a, b, c, p);')
     a('w_closestVertexLine', '%s& o, const %s& a, const %s& b, const %s& c, const %s& l' % (V, V, V, V, L), 'o = closestVertex(a, b, c, l);')
     a('w_rotatePoint', '%s& o, const %s& p, const %s& l, const %s& ang' % (V, V, L, E), 'o = rotatePoint(p, l, ang);')
+    # constructors are their set() forms; a line times a matrix is the line through the two transformed points
+    a('w_line_ctor', '%s& l, const %s& p0, const %s& p1' % (L, V, V), 'l = %s(p0, p1);' % L, ctor_of='w_line_set', n=6)
+    a('w_plane_ctor3', '%s& pl, const %s& a, const %s& b, const %s& c' % (Pl, V, V, V), 'pl = %s(a, b, c);' % Pl, ctor_of='w_plane_set3', n=4)
+    a('w_plane_ctorpn', '%s& pl, const %s& p, const %s& n' % (Pl, V, V), 'pl = %s(p, n);' % Pl, ctor_of='w_plane_setpn', n=4)
+    a('w_plane_ctornd', '%s& pl, const %s& n, const %s& d' % (Pl, V, E), 'pl = %s(n, d);' % Pl, ctor_of='w_plane_setnd', n=4)
+    a('w_sphere_ctor', '%s& s, const %s& c, const %s& r' % (Sp, V, E), 's = %s(c, r);' % Sp, fields=True)
+    a('w_lineM', '%s& o, const %s& l, const Matrix44<%s>& m' % (L, L, E), 'o = l * m;')
+    a('w_lineM_ref', '%s& o, const %s& l, const Matrix44<%s>& m' % (L, L, E), '%s p0 = l.pos * m; %s p1 = (l.pos + l.dir) * m; o.set(p0, p1);' % (V, V))
     a('w_tri', 'bool& r, const %s& l, const %s& v0, const %s& v1, const %s& v2, %s& pt, %s& bary, bool& front' % (L, V, V, V, V, V), 'r = intersect(l, v0, v1, v2, pt, bary, front);')
     return tu
 
@@ -334,6 +342,36 @@ def main(rep, ws, tier):
             if npar == 0: return 'no path for parallel lines', None
             return None, 'distance = |(d1 x d2).(p2 - p1)| / |d1 x d2| = length of the connecting segment; parallel and anti-parallel lines: the perpendicular distance'
         run('w_line_dl', 'R15.line', line_dl)
+
+        # ---- constructors and the line transform: the same value graphs as the set() forms decided above
+        def ctors():
+            for name, m_ in tu.meta.items():
+                if 'ctor_of' in m_:
+                    S = R.get(name); S0 = R.get(m_['ctor_of'])
+                    if S is None or S0 is None: raise vg.Unsupported(R.err.get(name, R.err.get(m_['ctor_of'], 'not analysed')))
+                    for i in range(m_['n']):
+                        a_, b_ = S.out('a0', i * sz, sz, lt), S0.out('a0', i * sz, sz, lt)
+                        if not (a_ is b_ or T.equiv(a_, b_, 50000)):
+                            return '%s: member %d differs from what %s computes' % (name[2:], i, m_['ctor_of'][2:]), None
+            S = R.get('w_sphere_ctor')
+            if S is None: raise vg.Unsupported(R.err.get('w_sphere_ctor', 'not analysed'))
+            for i in range(3):
+                if S.out('a0', i * sz, sz, lt) is not agg.slot_in('a1', i, t): return 'Sphere3(c, r): centre component %d is %s' % (i, T.show(S.out('a0', i * sz, sz, lt), 2)), None
+            if S.out('a0', 3 * sz, sz, lt) is not agg.scalar_in('a2', t): return 'Sphere3(c, r): radius is %s' % T.show(S.out('a0', 3 * sz, sz, lt), 2), None
+            S = R.get('w_lineM'); S0 = R.get('w_lineM_ref')
+            if S is None or S0 is None: raise vg.Unsupported(R.err.get('w_lineM', R.err.get('w_lineM_ref', 'not analysed')))
+            for i in range(6):
+                a_, b_ = S.out('a0', i * sz, sz, lt), S0.out('a0', i * sz, sz, lt)
+                if not (a_ is b_ or T.equiv(a_, b_, 100000)):
+                    return 'line * M: member %d is not that of the line through pos * M and (pos + dir) * M' % i, None
+            return None, 'Line3(p0,p1), Plane3(3 points / point+normal / normal+distance), Sphere3(c,r) agree with set(); line * M = line through pos*M and (pos+dir)*M'
+        S_any = R.get('w_line_ctor')
+        if S_any is not None:
+            try:
+                bad, ok = ctors()
+                rep.ob('constructors, line * matrix<%s>' % E, 'R15.set', VIOLATED if bad else HOLDS, bad or ok, fn_where(S_any.fn))
+            except (P.NotPoly, PC.Undecided, vg.Unsupported, OverflowError) as e:
+                rep.ob('constructors, line * matrix<%s>' % E, 'R15.set', UNDECIDED, str(e)[:300], fn_where(S_any.fn))
 
         # ---- planes
         def plane_set(kind):
